@@ -1195,6 +1195,11 @@ def parse_template(text):
         if mm:
             ins = [mm.group(1), _unesc(mm.group(2)), int(mm.group(3) or 1), mm.group(4)]
             cur.inserts.append(ins); last = ("insert", ins); i += 1; continue
+        mopt = re.match(r'^replace\?\s+"((?:[^"\\]|\\.)*)"\s*=>\s*"((?:[^"\\]|\\.)*)"\s*$', body)
+        if mopt:
+            # `replace?`: a rewrite for an ALTERNATIVE shape of the code; silently skipped when the text is absent
+            cur.replaces.append(("replace", _unesc(mopt.group(1)), _unesc(mopt.group(2)), 0))
+            last = None; i += 1; continue
         mm = re.match(r'^(replace|sigreplace|implreplace)\s+"((?:[^"\\]|\\.)*)"\s*(?:#(\d+)\s*)?=>\s*"((?:[^"\\]|\\.)*)"\s*(?:x(\d+))?\s*$', body)
         if mm:
             # `#k`: only the k-th occurrence is rewritten (stored as a negative `expect`)
@@ -2036,6 +2041,8 @@ def _rw_replace_any(toks, old, new, rep, expect):
     pat = pat_tokens(old)
     hits = _find_seq_any(toks, pat)
     if not hits:
+        if expect == 0:
+            return toks      # `replace?`: the alternative shape is not present
         # the construct that needed rewriting no longer occurs: nothing to rewrite
         rep.append(("LOST", f"replace: text not found (nothing rewritten): {old!r}"))
         return toks
